@@ -5,7 +5,7 @@ arguments).  Helper lemmas: GrpcProofs/Lemmas/Outlier.lean, OutlierB.lean, Outli
 `Reach s` = s is the state after some history of config/resolver updates, call results, timer
 runs (any iteration order, any draws), sub-connection and child events and passages of time.
 -/
-import GrpcProofs.Lemmas.OutlierB
+import GrpcProofs.Lemmas.OutlierC
 import GrpcProofs.Lemmas.OutlierReal
 namespace GrpcProofs.C40
 open GrpcModel.Outlier GrpcProofs.Lemmas.Outlier
@@ -198,6 +198,25 @@ theorem ejected_looks_TF_to_child_partial {s : St} (hr : Reach s) :
     ∀ w ∈ s.scws, w.ejected = true → w.hl = true → (w.last = none ∨ w.last = some 3) :=
   fun w hw => reach_ok hr w hw
 
+/-- A live wrapper whose `endpointInfo` pointer is a current endpoint is ejected exactly when
+    that endpoint is (at quiescence): ejection and un-ejection reach all sub-connections of the
+    endpoint and no others, new sub-connections of an ejected endpoint start ejected. -/
+theorem scw_ejected_iff_endpoint_ejected {s : St} (hr : Reach s) {w : Scw} (hw : w ∈ s.scws) {e : Ep} (he : e ∈ s.eps)
+    (hlive : w.dead = false) (haddr : w.addr = e.id) (hptr : w.ep = some e.gen) : w.ejected = e.ejected :=
+  (reach_J hr).E w hw e he ⟨hlive, haddr, hptr⟩
+
+/-- The two together: while an endpoint is ejected, none of its live sub-connections with a
+    registered health listener has shown the child anything but TRANSIENT_FAILURE. -/
+theorem ejected_endpoint_never_looks_healthy {s : St} (hr : Reach s) {w : Scw} (hw : w ∈ s.scws) {e : Ep} (he : e ∈ s.eps)
+    (hlive : w.dead = false) (haddr : w.addr = e.id) (hptr : w.ep = some e.gen) (hej : e.ej ≠ none) (hl : w.hl = true) :
+    w.last = none ∨ w.last = some 3 := by
+  have h1 := scw_ejected_iff_endpoint_ejected hr hw he hlive haddr hptr
+  have h2 : e.ejected = true := by
+    cases h : e.ej with
+    | none => exact absurd h hej
+    | some _ => simp [Ep.ejected, h]
+  exact ejected_looks_TF_to_child_partial hr w hw (h1.trans h2) hl
+
 /-- F5d: endpoint 1 is ejected (its listener gets TRANSIENT_FAILURE); the sub-connection goes IDLE
     and READY again, the child registers a new health listener, the sub-connection reports
     healthy: the new listener has been told nothing. -/
@@ -221,6 +240,14 @@ theorem noop_config_unejects_all (s : St) (c : Cfg) (ids : List Nat) (hn : c.noo
   intro y hy
   obtain ⟨h1, h2, _⟩ := update_mem s c ids hy
   exact ⟨(h2 hn).1, (h2 hn).2, h1⟩
+
+/-- … and every live sub-connection wrapper of a current endpoint is un-ejected. -/
+theorem noop_config_unejects_all_subconns {s : St} (hr : Reach s) (c : Cfg) (ids : List Nat) (hn : c.noop = true)
+    {w : Scw} (hw : w ∈ (step s (.update c ids)).scws) {e : Ep} (he : e ∈ (step s (.update c ids)).eps)
+    (hlive : w.dead = false) (haddr : w.addr = e.id) (hptr : w.ep = some e.gen) : w.ejected = false := by
+  have h1 := scw_ejected_iff_endpoint_ejected (Reach.step (.update c ids) hr) hw he hlive haddr hptr
+  have h2 := (noop_config_unejects_all s c ids hn e he).1
+  rw [h1]; simp [Ep.ejected, h2]
 
 -- non-vacuity: the hypotheses of the theorems above are satisfiable / the model does eject
 example : (run [.update cfgFp [1, 2, 3], .calls 1 0 4, .advance 10, .fire [] [1, 2, 3] [0]]).eps.map (·.ej) = [some 10, none, none] := by decide
